@@ -81,8 +81,12 @@ class Execution:
 
 
 class Scheduler:
-    def __init__(self, choices: list[int] | None = None, expect: list | None = None,
-                 max_points: int = 20000, max_vtime: float = 3600.0) -> None:
+    def __init__(self, choices: list[int] | None = None, expect: Any = None,
+                 max_points: int = 20000, max_vtime: float = 3600.0,
+                 lazy: tuple[str, ...] = ()) -> None:
+        # lazy: names of spawned threads that only run when nothing else can (a partial-order
+        # reduction for scenarios whose oracle never reads what those threads write)
+        self.lazy = set(lazy)
         self.prefix = list(choices or [])
         self.expect = expect
         self.max_points = max_points
@@ -186,6 +190,10 @@ class Scheduler:
                 sleepers.append(ts)
         ready.sort(key=lambda t: t.tid)
         sleepers.sort(key=lambda t: (t.wake, t.tid))
+        if self.lazy:
+            eager = [t for t in ready if t.name not in self.lazy]
+            if eager or sleepers or (me is not None and me.status in (READY, SLEEPING)):
+                ready = eager
         out: list[TS] = []
         if me is not None and me.status == READY:
             out.append(me)
